@@ -110,6 +110,36 @@ fn sig_gate_async_differs_6() {
     }
 }
 
+fn gate_budget() -> usize {
+    1
+}
+/// will_execute (the fake! path) compares signatures as well: a target whose recorded signature is
+/// anything else than the fake's - in particular the EMPTY signature of the unchecked macros - is refused
+#[kani::proof]
+#[kani::unwind(26)]
+#[kani::stub(std::ptr::copy_nonoverlapping, shim_copy)]
+#[kani::stub(crate::injector_core::linuxapi::__clear_cache, shim_clear_cache)]
+#[kani::stub(<*mut u8>::add, shim_add)]
+#[kani::stub(crate::injector_core::common::allocate_jit_memory, shim_allocate_jit_memory)]
+fn sig_gate_will_execute_differs_6() {
+    unsafe {
+        let f = setup();
+        let sa = any_sig::<6>(0); // never equal to "fn() -> bool" (12 bytes); includes the empty signature
+        let unchecked_api: bool = kani::any();
+        let mut inj = InjectorPP::new();
+        let pair = crate::fake!(func_type: fn() -> bool, returns: true, times: gate_budget());
+        sim::S.NO_TOUCH = true;
+        if unchecked_api {
+            kani::assume(sa.len() == 0);
+            inj.when_called_unchecked(FuncPtr::new(f as *const (), "")).will_execute(pair);
+        } else {
+            inj.when_called(FuncPtr::new(f as *const (), sa)).will_execute(pair);
+        }
+        assert!(false, "VERIF[C09]: will_execute accepted a type-carrying fake! for a target whose recorded signature differs (or is the empty signature of the unchecked macros)");
+        core::mem::forget(inj);
+    }
+}
+
 /// FuncPtr::new refuses a null pointer before anything else happens
 #[kani::proof]
 #[kani::unwind(26)]
@@ -198,6 +228,36 @@ unsafe fn bool_gate<const N: usize>(want_bool: bool) {
     assert!(sim::ENT[0].nwrites == 1 && sim::live_jits() == 1, "VERIF[C10]: a bool-returning target was accepted but nothing was installed");
     kani::cover!(len == N, "COVER: signature of maximal length");
     core::mem::forget(inj);
+}
+
+/// necessary condition, independent of any parsing: a signature that does not even END in `bool`
+/// (this includes the empty signature of the unchecked macros) can never qualify
+#[kani::proof]
+#[kani::unwind(26)]
+#[kani::stub(std::ptr::copy_nonoverlapping, shim_copy)]
+#[kani::stub(crate::injector_core::linuxapi::__clear_cache, shim_clear_cache)]
+#[kani::stub(<*mut u8>::add, shim_add)]
+#[kani::stub(crate::injector_core::common::allocate_jit_memory, shim_allocate_jit_memory)]
+#[kani::stub(str::trim, shim_trim)]
+fn bool_gate_refuses_not_ending_in_bool_8() {
+    unsafe {
+        let f = setup();
+        let sig = any_sig::<8>(0);
+        let b = sig.as_bytes();
+        let n = b.len();
+        let ends = n >= 4 && b[n - 4] == b'b' && b[n - 3] == b'o' && b[n - 2] == b'o' && b[n - 1] == b'l';
+        kani::assume(!ends);
+        let unchecked_api: bool = kani::any();
+        let mut inj = InjectorPP::new();
+        sim::S.NO_TOUCH = true;
+        if unchecked_api {
+            inj.when_called_unchecked(FuncPtr::new(f as *const (), sig)).will_return_boolean(kani::any());
+        } else {
+            inj.when_called(FuncPtr::new(f as *const (), sig)).will_return_boolean(kani::any());
+        }
+        assert!(false, "VERIF[C10]: a forced boolean result was accepted for a target whose recorded signature does not end in `bool` (e.g. the empty signature of the unchecked macros)");
+        core::mem::forget(inj);
+    }
 }
 
 macro_rules! bool_harness {
